@@ -4,9 +4,14 @@ use aes_gcm::KeyInit;
 use aes_gcm::aead::Aead;
 use aes_gcm::aead::Payload;
 use aes_gcm::aes::cipher::Unsigned;
+use std::sync::LazyLock;
+use std::sync::Mutex;
+use std::time::Duration;
+
 use anyhow::anyhow;
 use anyhow::bail;
 use log::debug;
+use lru_time_cache::LruCache;
 use octo_squirrel::codec::vmess::aead::AEADBodyCodec;
 use octo_squirrel::config::ServerConfig;
 use octo_squirrel::protocol::vmess::address;
@@ -29,6 +34,21 @@ use tokio_util::codec::Encoder;
 use super::config::SslConfig;
 use super::template::message::InboundIn;
 use super::template::message::OutboundIn;
+
+/// How long an auth id can be presented: it is honoured from 120 s before to 120 s after its timestamp.
+const AUTH_ID_LIFETIME: Duration = Duration::from_secs(241);
+
+static AUTH_IDS: LazyLock<Mutex<LruCache<[u8; 16], ()>>> = LazyLock::new(|| Mutex::new(LruCache::with_expiry_duration_and_capacity(AUTH_ID_LIFETIME, 102400)));
+
+/// Records an accepted auth id; false if it has been accepted before (a replayed request).
+fn remember_auth_id(auth_id: [u8; 16]) -> bool {
+    let mut seen = AUTH_IDS.lock().unwrap_or_else(|e| e.into_inner());
+    if seen.contains_key(&auth_id) {
+        return false;
+    }
+    seen.insert(auth_id, ());
+    true
+}
 
 pub fn new_codec(config: &ServerConfig<SslConfig>) -> anyhow::Result<ServerAeadCodec> {
     ServerAeadCodec::try_from(config)
@@ -157,8 +177,9 @@ impl Decoder for ServerAeadCodec {
                 if src.len() < 16 {
                     return Ok(None);
                 }
-                let auth_id = &src[0..16];
-                if let Some(key) = auth_id::matching(auth_id, &self.keys)? {
+                let mut auth_id = [0; 16];
+                auth_id.copy_from_slice(&src[0..16]);
+                if let Some(key) = auth_id::matching(&auth_id, &self.keys)? {
                     if let Some(header) = encrypt::open_header(&key, src)? {
                         // version, iv, key, response header, option, security, reserved, command, port, address type, checksum
                         if header.len() < 1 + 16 + 16 + 1 + 1 + 1 + 1 + 1 + 2 + 1 + 4 {
@@ -190,6 +211,11 @@ impl Decoder for ServerAeadCodec {
                         let actual = header.get_u32();
                         if fnv::fnv1a32(&data) != actual {
                             bail!("invalid auth, but this is a AEAD request")
+                        }
+                        // the whole header is in and authentic: only now is the request taken, and only once - the response is
+                        // keyed from the request, a second response to a replayed copy would reuse its keys and nonces
+                        if !remember_auth_id(auth_id) {
+                            bail!("repeated authID")
                         }
                         let mut header = RequestHeader::new(version, command, RequestOption::from_mask(option), security, address, key);
                         let mut session = ServerSession::new(request_body_iv, request_body_key, response_header);
